@@ -2,6 +2,7 @@ import Comdex.Lemmas.AmmMatchExact
 import Comdex.Lemmas.AmmMatchDust
 import Comdex.Lemmas.AmmFindPriceBook
 import Comdex.Lemmas.AmmPool
+import Comdex.Lemmas.AmmRanged
 import Comdex.Lemmas.AmmKeeper
 /-!
 # C05 — Batch matching conserves coins and never fills an order beyond its limits
@@ -725,6 +726,105 @@ example : (poolBuyOrders ⟨1000000, 1000000⟩ 900000000000000000 1100000000000
     monPoolSells ⟨1000000, 1000000⟩ (poolSellOrders ⟨1000000, 1000000⟩ 900000000000000000 1100000000000000000 2) = true := by
   set_option maxRecDepth 100000 in
   refine ⟨by decide, by decide, by decide⟩
+
+
+/-! ## the pool side of a batch (ranged pools) — modelled, no longer an input
+
+`Model/AmmRanged.lean`: `DeriveTranslation`, the `RangedPool` curve functions and `PoolBuyOrders` / `PoolSellOrders` over a ranged
+pool, bit for bit.  `X = xComp = rx + transX`, `Y = yComp = ry + transY` are the VIRTUAL reserves (Dec raws, ×10^18 = `Dec.P`); the
+pool's curve is `X·Y = const`; `rx`, `ry` are the REAL reserves.  The translation comes out of approximate square roots; every
+statement below holds for ANY translation with non-negative virtual reserves (what the monitor checks on every real pool). -/
+
+/-- **`RangedPool.BuyAmountOver`**: the amount `a` a ranged pool offers to buy at price `t` costs at most its REAL quote reserve,
+and `t·(Y + a) ≤ X` up to half a unit of the 18th decimal (`Dec.Mul` rounds): the pool pays at most `X/(Y + a)` — on its virtual
+constant-product curve -/
+theorem ranged_buy_amount_on_curve (pl : RPool) (t a : Int) (hrx : 0 ≤ pl.rx) (hY : 0 ≤ pl.yComp) (ht0 : 0 < t)
+    (h : pl.buyAmountOver t = some a) (ha : 0 < a) :
+    quoteCeil t a ≤ pl.rx ∧ t * (pl.yComp + a * Dec.P) ≤ pl.xComp * Dec.P + Dec.half :=
+  (rBuyAmountOver_spec pl t a hrx hY ht0 h).2 ha
+
+/-- **`RangedPool.SellAmountUnder`**: the amount `a` offered for sale at `t` is covered by the REAL base reserve, and
+`X/t ≤ Y − a` up to `t·10⁻³⁶` (`QuoRoundUp` rounds twice): the pool receives at least `X/(Y − a)` per unit; every price -/
+theorem ranged_sell_amount_on_curve (pl : RPool) (t a : Int) (hX : 0 ≤ pl.xComp) (hY : 0 ≤ pl.yComp)
+    (h : pl.sellAmountUnder t = some a) (ha : 0 < a) :
+    0 < t ∧ a ≤ pl.ry ∧ 0 ≤ pl.yComp - a * Dec.P ∧
+    pl.xComp * Dec.PP ≤ t * (pl.yComp - a * Dec.P) * Dec.P + t :=
+  (rSellAmountUnder_spec pl t a hX hY h).2 ha
+
+/-- **no value extraction, buy side**: an order on the curve (`t·(Y + a) ≤ X + ½·10⁻¹⁸`), fully filled — the pool pays `c = ⌈t·a⌉`
+and receives `a` — leaves the virtual product at least `X·Y − (Y + a)·1 quote unit − a·½·10⁻¹⁸`: nothing but the rounding of the
+payment to a whole quote unit can lower it -/
+theorem ranged_buy_keeps_product (X Y t a : Int) (hY : 0 ≤ Y) (ha : 0 ≤ a) (ht : 0 ≤ t)
+    (hc : t * (Y + a * Dec.P) ≤ X * Dec.P + Dec.half) :
+    X * Y - Dec.P * (Y + a * Dec.P) - a * Dec.half ≤ (X - quoteCeil t a * Dec.P) * (Y + a * Dec.P) := by
+  have hP := P_pos
+  have hq : 0 ≤ Y + a * Dec.P := by have := Int.mul_nonneg ha (Int.le_of_lt hP); omega
+  have h0 := quoteCeil_mul_le t a (Int.mul_nonneg ht ha)
+  have h1 : quoteCeil t a * Dec.P * (Y + a * Dec.P) ≤ (t * a + (Dec.P - 1)) * (Y + a * Dec.P) :=
+    Int.mul_le_mul_of_nonneg_right h0 hq
+  have h2 : a * (t * (Y + a * Dec.P)) ≤ a * (X * Dec.P + Dec.half) := Int.mul_le_mul_of_nonneg_left hc ha
+  nlinarith [h1, h2]
+
+/-- **no value extraction, sell side**: the pool gives `a` and receives `r = ⌊t·a⌋`; with `Y' = Y − a`:
+`X'·Y' ≥ X·Y − Y'·1 quote unit − a·t·10⁻³⁶` -/
+theorem ranged_sell_keeps_product (X Y t a : Int) (ha : 0 ≤ a) (ht : 0 ≤ t) (hY' : 0 ≤ Y - a * Dec.P)
+    (hc : X * Dec.PP ≤ t * (Y - a * Dec.P) * Dec.P + t) :
+    Dec.P * (X * Y) - a * t - Dec.PP * (Y - a * Dec.P) ≤ Dec.P * ((X + quoteFloor t a * Dec.P) * (Y - a * Dec.P)) := by
+  have hP := P_pos
+  have h0 := le_quoteFloor_mul t a (Int.mul_nonneg ht ha)
+  have h1 : (t * a - (Dec.P - 1)) * (Y - a * Dec.P) ≤ quoteFloor t a * Dec.P * (Y - a * Dec.P) :=
+    Int.mul_le_mul_of_nonneg_right (by omega) hY'
+  have h2 : a * (X * Dec.PP) ≤ a * (t * (Y - a * Dec.P) * Dec.P + t) := Int.mul_le_mul_of_nonneg_left hc ha
+  have hPP : Dec.PP = Dec.P * Dec.P := rfl
+  rw [hPP] at h2 ⊢
+  nlinarith [h1, h2, Int.mul_nonneg (Int.le_of_lt hP) hY']
+
+/-- **`PoolBuyOrders` over a ranged pool** (positive lower price limit): every order the tick loop places is — replayed on the
+running reserves, `monRPoolBuys` — covered by the REAL quote reserve and not above the virtual curve, given that the state the loop
+starts from (the pool itself, or the pool after the one `BuyAmountTo` order at the upper limit, translation derived again) has
+non-negative real quote and virtual base reserve -/
+theorem ranged_pool_buy_orders_within_reserves_and_curve (pl : RPool) (lowest highest : Int) (prec : Nat) (hlow : 0 < lowest) :
+    RBuysOk pl highest (rPoolBuyOrders pl lowest highest prec) :=
+  rPoolBuyOrders_ok pl lowest highest prec hlow
+
+/-- **`PoolSellOrders` over a ranged pool** likewise (`monRPoolSells`; non-negative virtual reserves at the start of the loop) -/
+theorem ranged_pool_sell_orders_within_reserves_and_curve (pl : RPool) (lowest highest : Int) (prec : Nat) :
+    RSellsOk pl lowest (rPoolSellOrders pl lowest highest prec) :=
+  rPoolSellOrders_ok pl lowest highest prec
+
+/-- the one order at the price limit (`BuyAmountTo` / `SellAmountTo`, approximate square roots — not proved to be on the curve)
+is at least covered by the REAL reserves -/
+theorem ranged_limit_orders_covered (pl : RPool) (t a : Int) (hrx : 0 ≤ pl.rx) (hry : 0 ≤ pl.ry) (ht0 : 0 < t) :
+    (pl.buyAmountTo t = some a → 0 ≤ a ∧ (0 < a → quoteCeil t a ≤ pl.rx)) ∧
+    (pl.sellAmountTo t = some a → 0 ≤ a ∧ a ≤ pl.ry) :=
+  ⟨fun h => rBuyAmountTo_covered pl t a hrx ht0 h, fun h => rSellAmountTo_covered pl t a hry h⟩
+
+/-- the totals: quote coin offered by the tick-loop buy orders ≤ `rx`, base coin offered by the sell orders ≤ `ry` -/
+theorem ranged_pool_offers_within_reserves (pl : RPool) (bl sl : List (Int × Int)) (hb : monRPoolBuys pl bl = true)
+    (hs : monRPoolSells pl sl = true) :
+    (bl ≠ [] → sumInt (bl.map fun pa => quoteCeil pa.1 pa.2) ≤ pl.rx) ∧ (sl ≠ [] → sumInt (sl.map fun pa => pa.2) ≤ pl.ry) :=
+  ⟨fun hne => (monRPoolBuys_total pl bl hb).resolve_right hne, fun hne => (monRPoolSells_total pl sl hs).resolve_right hne⟩
+
+/-- non-vacuity: the ranged pool 10^6 : 10^6 on [0.9, 1.1] (`NewRangedPool` derives the translation ≈ 1.94·10^7 : 1.95·10^7, price
+0.9952…) places 47 buy and 15 sell orders inside the limits 0.9 … 1.1 at precision 2, its virtual reserves are non-negative and
+the orders pass the replayed conditions -/
+def exRanged : RPool := ⟨1000000, 1000000, 900000000000000000, 1100000000000000000,
+  19388616655548310034032496, 19486292924390644719857716⟩
+
+example : RPool.new 1000000 1000000 900000000000000000 1100000000000000000 = some exRanged := by
+  set_option maxRecDepth 100000 in decide
+
+example : exRanged.price = some 995232115971257888 ∧ 0 ≤ exRanged.xComp ∧ 0 ≤ exRanged.yComp ∧
+    (rPoolBuyOrders exRanged 900000000000000000 1100000000000000000 2).length = 47 ∧
+    (rPoolSellOrders exRanged 900000000000000000 1100000000000000000 2).length = 15 ∧
+    monRPoolBuys exRanged (rPoolBuyOrders exRanged 900000000000000000 1100000000000000000 2) = true ∧
+    monRPoolSells exRanged (rPoolSellOrders exRanged 900000000000000000 1100000000000000000 2) = true := by
+  set_option maxRecDepth 100000 in
+  refine ⟨by decide, by decide, by decide, by decide, by decide, by decide, by decide⟩
+
+example : exRanged.buyAmountOver 995000000000000000 = some 4779 ∧ exRanged.sellAmountUnder 996000000000000000 ≠ some 0 := by
+  set_option maxRecDepth 100000 in
+  refine ⟨by decide, by decide⟩
 
 
 /-! ## the exact characterisation of defect D2 -/
